@@ -28,6 +28,21 @@ def run(prop, path):
         log('the recorded proof obligations / ties check again on the current tree')
         return 0
     v = d.get('first', {})
+    if prop in FIELD and 'replay' in v and 'schedule' in v['replay']:
+        # a schedule of the deterministic scheduler: the same calls, the same seed, fresh processes
+        sch = v['replay']['schedule']
+        st = prepare(prop)
+        res = Result()
+        groups = [Case(dec(x['content']), x['kw'], 'replay') for x in sch['calls']]
+        outs = symbols.scheduled_run(groups, int(sch['seed']))
+        symbols.compare_concurrent(groups, outs, res, [FIELD[prop]], 'deterministic scheduler, 8 threads', lambda i, c: c.replay())
+        for x in res.violations[:3]:
+            log('FAILING-INPUT ' + json.dumps({k: x[k] for k in x if k != 'replay'}, default=str)[:600])
+        if res.violations:
+            log(f'VIOLATION property={prop} replay={path}')
+            return 1
+        log(f'the recorded schedule (seed {sch["seed"]}, {len(groups)} calls, 8 threads) gives the sequential results on the current tree')
+        return 0
     if prop in FIELD and 'replay' in v and 'content' in v['replay']:
         import p_symbols
         st = prepare(prop)
@@ -56,6 +71,7 @@ def run(prop, path):
     for pth in sorted(glob.glob(os.path.join(os.path.dirname(__file__), 'p_*.py'))):
         runners.update(__import__(os.path.basename(pth)[:-3]).RUNNERS)
     seed, tier = int(d.get('seed', 1)), d.get('tier', 'quick')
+    os.environ['VERIF_SEED'] = str(seed)      # the deterministic scheduler of the concurrency passes is seeded from it
     st = prepare(prop)
     res = Result()
     runners[prop](tier, random.Random(seed * 1000003 + int(prop[1:])), st, res)
